@@ -745,6 +745,8 @@ def replay(unit_name, inp, obligation=""):
     import warnings
     if unit_name.startswith("set_temporary_feature"):
         return _replay_temp_child()
+    if unit_name.startswith("RTDCBase.__contains__"):
+        return _replay_contains()
     feat = unit_name.replace("reads of ", "").split("[")[0]
     state = {k: v for k, v in inp.items() if "@later" not in k}
     import ast
@@ -819,6 +821,34 @@ def replay(unit_name, inp, obligation=""):
         if msg:
             return {"failed": True, "detail": msg}
     return {"failed": False, "detail": "no stale value and no failing read found"}
+
+
+def _replay_contains():
+    """read a computed feature, remove one of the settings it needs: `feat in ds` must agree with reading"""
+    import warnings
+    full = {f"has_cfg_{s_}:{k}": True for (s_, k) in DEFAULTS}
+    full.update({"medium_is_cellcarrier": True, "has_feat_fl1_max": True, "has_feat_fl2_max": True, "has_feat_fl3_max": True,
+                 "has_feat_frame": True, "has_feat_pos_x": True, "has_feat_pos_y": True, "has_feat_image": True,
+                 "has_feat_mask": True, "has_feat_area_cvx": True})
+    full.pop("has_cfg_calculation:emodulus viscosity")
+    with warnings.catch_warnings():
+        warnings.simplefilter("ignore")
+        for feat in ("emodulus", "time", "fl1_max_ctc", "area_um_raw", "volume"):
+            for (sec, key) in DEFAULTS:
+                ds = _native_ds(full)
+                if feat not in ds or key not in ds.config[sec]:
+                    continue
+                if _outcome(ds, feat)[0] == "raise":
+                    continue
+                ds.config[sec].pop(key)
+                says = feat in ds
+                listed = feat in ds.features
+                got = _outcome(ds, feat)
+                if says != (got[0] == "ok") or listed != says:
+                    return {"failed": True, "detail": f"'{feat}' was read, then [{sec}] '{key}' was removed: "
+                                                      f"'{feat}' in ds is {says}, in ds.features: {listed}, reading it "
+                                                      f"{'succeeds' if got[0] == 'ok' else 'raises ' + str(got[1])}"}
+    return {"failed": False, "detail": "containment agrees with reading after every removal of a setting"}
 
 
 OPTIONAL_FOR = {"bright_bc": ("bg_off",), "bright_perc": ("bg_off",), "fl": ("fl1_max", "fl2_max", "fl3_max"),
@@ -1078,6 +1108,67 @@ class CacheProtocol(Contract):
 
 
 UNITS += [CacheProtocol(False), CacheProtocol(True)]
+
+
+class GetInstances(Contract):
+    """AncillaryFeature.get_instances(name): the registered recipes of that name"""
+    name = "AFClass.get_instances"
+    trusted = True
+
+    def __call__(self, interp, cls, feat):
+        return list(interp.cur_frame.unit._insts)
+
+
+class InstAvailable(Contract):
+    """AncillaryFeature.is_available(ds) of one recipe (layer 3)"""
+    name = "AFI.is_available"
+
+    def __call__(self, interp, inst, ds):
+        return interp.ctx.bool(f"recipe_{inst.fields['k']}_is_available", inp=True)
+
+
+class Contains(Contract):
+    """RTDCBase.__contains__(feat) for a computed feature that is neither stored, temporary
+    nor in a basin: True exactly when one of its recipes is available in the *current*
+    state -- whatever the cache holds from earlier states (reading succeeds exactly
+    then: _get_ancillary_feature_data above)"""
+    path = "dclab/rtdc_dataset/core.py"
+    module = "dclab.rtdc_dataset.core"
+    qualname = "RTDCBase.__contains__"
+    classes = {"DSC": ("dclab/rtdc_dataset/core.py", "RTDCBase")}
+    class_modules = {"DSC": "dclab.rtdc_dataset.core"}
+    params = ("self", "feat")
+    feat = "emodulus"
+
+    def __init__(self, cached):
+        self.cached = cached
+        self.name = f"RTDCBase.__contains__[computed feature, {'entry cached' if cached else 'nothing cached'}]"
+        super().__init__()
+        self.callees = {"AFClass.get_instances": GetInstances(), "AFI.is_available": InstAvailable()}
+
+    def get_globals(self):
+        g = dict(super().get_globals())
+        g["AncillaryFeature"] = self._cls
+        return g
+
+    def inputs(self, ctx):
+        self._cls = ctx.obj("AFClass", {"feature_names": [self.feat, "volume"]}, name="AncillaryFeature")
+        self._insts = [ctx.obj("AFI", {"k": k}, name=f"recipe_{k}") for k in range(3)]
+        anc = {}
+        if self.cached:
+            h = SOpaque(ctx.const("hash_when_cached", Elem), str)
+            anc[self.feat] = (h, SOpaque(VAL(h.e)))
+        ds = ctx.obj("DSC", {"_ancillaries": anc, "_events": {"deform": 1, "area_um": 2}, "_usertemp": {},
+                             "features_basin": []}, name="ds")
+        return {"self": ds, "feat": self.feat}
+
+    def ensures(self, ctx, old, a, result):
+        want = z3.Or(*[z3.Bool(f"recipe_{k}_is_available") for k in range(3)])
+        return [("a computed feature is reported as contained exactly when one of its recipes is available now",
+                 to_z3(result, "bool") == want)]
+
+
+UNITS += [Contains(False), Contains(True)]
 
 
 # --------------------------------------------------------------------------
